@@ -18,7 +18,7 @@ from ..values import (Const, Sym, CRef, FRef, MRef, ERef, Bound, BoundB, Obj,
                       Tup, App, New, Raise, Coll, walk)
 from ..interp import Interp, Hooks
 from ..effects import Effects, _SummaryHooks, _is_gen, _is_static
-from ..report import Finding, RuleResult, floor
+from ..report import Finding, RuleResult, floor, Attempts
 from . import c07
 
 PROP = 'C06'
@@ -371,7 +371,8 @@ def rule_opq1(prog):
 
 
 def run(prog, tier, seed):
-    r = rule_opq1(prog)
+    T = Attempts()
+    r = T(rule_opq1, prog)
     expl = ('Type-tag flow analysis over every function reachable from the '
             'three modelchecks (abstract interpretation per function, '
             'return types closed by fixpoint): values tagged State (what '
@@ -389,4 +390,4 @@ def run(prog, tier, seed):
     assumptions = ['seed table of the graph/Kripke API (METHOD_TYPES, '
                    'FIELD_TYPES) transcribed from the documented API',
                    'iteration-order / hash-seed clauses are not decided']
-    return [r], expl, assumptions, {}
+    return T.results(r), expl, assumptions, T.extra()
